@@ -457,6 +457,15 @@ def run(ctx):
     from TotalDepth.BIT import ToLAS as BT
     from TotalDepth.LAS.core import LASRead
     from TotalDepth.common import Slice
+
+    def fail(msg, payload, sig):
+        """known finding F34: the LIS frame loader does not implement negative slice steps - whatever goes wrong in a LIS conversion
+        with a negative step (the file fails, or frames other than the selected ones are written) carries that signature"""
+        c_ = payload.get('meta', payload) if isinstance(payload, dict) else {}
+        sel_ = c_.get('selector') or {}
+        if c_.get('converter') == 'LIS' and c_.get('fmt') == 'LIS' and sel_.get('kind') == 'slice' and sel_.get('c') and sel_['c'][0] < 0:
+            sig = dict(kind='lis-negative-step')
+        ctx.fail(msg, payload, sig=sig)
     design(ctx)
     split_replay(ctx, LT, Slice)
     rng = ctx.subrng('c11')
@@ -480,7 +489,7 @@ def run(ctx):
                 gate = None
                 if ri == 0 and fi % 5 == 0:
                     gate = rng.choice([k for k in conv if k != fmt])       # another format's converter on this file
-                sel, selobj = make_selector(rng, rng.choice(passes)['n'], Slice, negative=(fmt == 'RP66V1' and gate is None))
+                sel, selobj = make_selector(rng, rng.choice(passes)['n'], Slice, negative=(gate is None))
                 pool = sorted({n for p in passes for n in p['names'][1:]})
                 if rng.random() < 0.35 or not pool:
                     req = []
@@ -504,7 +513,7 @@ def run(ctx):
                 try:
                     res = conv[gate or fmt](path_in, method, path_out, selobj, chset, width, ffmt)
                 except Exception as e:
-                    ctx.fail('%s converter raised %s: %s; %s' % (gate or fmt, type(e).__name__, e, json.dumps(case)[:400]), case,
+                    fail('%s converter raised %s: %s; %s' % (gate or fmt, type(e).__name__, e, json.dumps(case)[:400]), case,
                              sig=dict(kind='escaped-exception', fmt=gate or fmt))
                     continue
                 outs = sorted(os.listdir(outdir)) if os.path.isdir(outdir) else []
@@ -528,7 +537,7 @@ def run(ctx):
                             empty_here = selection_empty(sel, P['n'])
                             if not empty_here and earlier_empty and fmt in ('RP66V1', 'LIS'):
                                 # known finding F23: an empty selection in an earlier pass aborted the whole file
-                                ctx.fail('%s -> LAS: pass %s (%d frames, selection not empty) was not written because the selection is empty '
+                                fail('%s -> LAS: pass %s (%d frames, selection not empty) was not written because the selection is empty '
                                          'for an earlier pass of the file' % (fmt, P['key'], P['n']), case, sig=dict(kind='empty-selection-aborts-file', fmt=fmt))
                                 continue
                             earlier_empty = earlier_empty or empty_here
@@ -547,7 +556,7 @@ def run(ctx):
                             # known finding F22: implied X and none of the requested channels in this pass -> nothing is read, the X
                             # column is uninitialised memory.  Recognised by: only the X curve is written, the row count is right.
                             if no_channel and o['cols'] == [1] and len(out['rows']) == len(want) and o['rows'] != want:
-                                ctx.fail('LIS -> LAS: implied X, no requested channel in the pass: the X column is not the X axis (%r)' % [r[0] for r in out['rows']][:4],
+                                fail('LIS -> LAS: implied X, no requested channel in the pass: the X column is not the X axis (%r)' % [r[0] for r in out['rows']][:4],
                                          case, sig=dict(kind='lis-implied-x-no-channel'))
                                 o['rows'] = want
                                 o['strt'], o['stop'] = P['xq'][want[0]], P['xq'][want[-1]]
@@ -557,7 +566,7 @@ def run(ctx):
                             elif o['rows'] != want and len(want) == len(out['rows']) and c06.f11_signature(P['pattern'], want):
                                 emu = c06.f11_emulate(P['pattern'], P['x0'], P['dx'], want)
                                 if all(len(r) and scaled(r[0], 1) == int(e) for r, e in zip(out['rows'], emu)):
-                                    ctx.fail('LIS -> LAS: implied X wrong after a record change with a stepped slice (X column %r)' % [r[0] for r in out['rows']][:6],
+                                    fail('LIS -> LAS: implied X wrong after a record change with a stepped slice (X column %r)' % [r[0] for r in out['rows']][:6],
                                              case, sig=dict(kind='implied-x-record-change'))
                                     o['rows'] = want            # judge the rest of the file on the frames the values come from
                                     skip_x = True
@@ -569,12 +578,12 @@ def run(ctx):
                         ev['out'] = o
                         tr.append(ev)
                         if fmt == 'BIT' and 'STEP' not in out['well'] and 'STRP' in out['well']:
-                            ctx.fail('BIT -> LAS: the well section has no STEP line, the step is written under the mnemonic STRP', case,
+                            fail('BIT -> LAS: the well section has no STEP line, the step is written under the mnemonic STRP', case,
                                      sig=dict(kind='bit-strp'))
                         if not bad:
                             v = check_values(P, out, o, dec, method, skip_x=skip_x)
                             if v and fmt == 'BIT' and check_values(P, out, o, dec, method, use_alt=True) is None:
-                                ctx.fail('BIT -> LAS: %s (the value gen_floats gives, known IBM divisor defect)' % v, case, sig=dict(kind='ibm-divisor'))
+                                fail('BIT -> LAS: %s (the value gen_floats gives, known IBM divisor defect)' % v, case, sig=dict(kind='ibm-divisor'))
                             elif v:
                                 bad.append(v)
                         if not bad and not skip_read:
@@ -590,11 +599,11 @@ def run(ctx):
                             except Exception as e:
                                 bad.append('LASRead of the output raised %s: %s' % (type(e).__name__, e))
                         for b in bad[:1]:
-                            ctx.fail('%s -> LAS %s: %s; %s' % (fmt, cand[0], b, json.dumps(case)[:500]), dict(case, text=text[:3000]),
+                            fail('%s -> LAS %s: %s; %s' % (fmt, cand[0], b, json.dumps(case)[:500]), dict(case, text=text[:3000]),
                                      sig=dict(kind='output', fmt=fmt, what=b.split(':')[0][:40]))
                     extra = [o for o in outs if o not in used]
                     if extra:
-                        ctx.fail('%s -> LAS wrote unexpected files %r; %s' % (fmt, extra, json.dumps(case)[:300]), case, sig=dict(kind='extra-files', fmt=fmt))
+                        fail('%s -> LAS wrote unexpected files %r; %s' % (fmt, extra, json.dumps(case)[:300]), case, sig=dict(kind='extra-files', fmt=fmt))
                 tr.append(dict(op='result', ignored=bool(res.ignored), exception=bool(res.exception), las_count=int(res.las_count), outputs=len(outs)))
                 traces.append(tr)
                 meta.append(case)
@@ -613,7 +622,7 @@ def run(ctx):
         what = 'result'
         if ev and ev.get('op') == 'pass':
             what = 'pass'
-        ctx.fail('conversion run rejected by ToLasTrace at event %s: %s; run %s' % (l, json.dumps(ev)[:700], json.dumps(m)[:500]),
+        fail('conversion run rejected by ToLasTrace at event %s: %s; run %s' % (l, json.dumps(ev)[:700], json.dumps(m)[:500]),
                  dict(meta=m, event=ev, l=l), sig=dict(kind='trace', fmt=m['converter'], op=what))
     ctx.rule = ('one case per conversion run (file x selector x request x reduction x width x format); non-trivial = own-format '
                 'run with a sample or a slice with at least one explicit part')
@@ -621,8 +630,8 @@ def run(ctx):
                         'X values unique per pass and exactly representable; formats with >= 1 decimal where X has halves/eighths',
                         'channel names without spaces inside; LIS channels are not dipmeter sub-channel codes',
                         'an empty selection may be reported as a failed conversion or a file without rows',
-                        'negative slice steps: judged for the RP66V1 converter (the frames in reverse order, STRT / STOP / STEP of the rows as written); '
-                        'the LIS frame loader and the BIT converter define positive steps only (not judged there)']
+                        'negative slice steps are Python slice semantics too: the frames in reverse order, STRT / STOP / STEP of the rows as written '
+                        '(RP66V1 and BIT do it; the LIS frame loader refuses negative steps: known finding F34)']
     ctx.explanation = ('TLC decides which converter designs refine ToLasAbs (and refutes the as-found ones); real conversions of generated '
                        'RP66V1/LIS/BIT files validated as traces; printed values vs recorded content; outputs through LASRead')
 
